@@ -385,9 +385,50 @@ def bounds_stage(run, driver, n):
             run.traces += 1
 
 
+def epsilon_stage(run, driver, n):
+    """`_estimate_epsilon` / `_estimate_delta` on random assignments of units to contests (empty contests, single-unit contests, one
+    contest only) with dyadic residuals, against the model `BootErr.epsilon / delta` (per-contest mean; none below two units)"""
+    C.use_repo()
+    from elexmodel.models.BootstrapElectionModel import BootstrapElectionModel
+
+    rng = run.rng
+    model = BootstrapElectionModel({"features": ["baseline_normalized_margin"]})
+    for _ in range(n):
+        k = rng.randint(1, 6)
+        nu = rng.randint(1, 14)
+        cs = [rng.randrange(k) for _ in range(nu)]
+        if rng.random() < 0.3:
+            cs = [min(c, max(0, k - 2)) for c in cs]      # the last contest has no unit
+        rs = [rng.randint(-256, 256) / 64 for _ in range(nu)]
+        ind = np.zeros((nu, k))
+        for i, c in enumerate(cs):
+            ind[i, c] = 1
+        case = {"epsilon_stage": True, "contests": cs, "residuals": rs, "k": k}
+        counts = [cs.count(c) for c in range(k)]
+        run.case(case, any(c >= 2 for c in counts) and any(c == 1 for c in counts))
+        run.count("contest effects")
+        try:
+            with np.errstate(all="ignore"):
+                eps = model._estimate_epsilon(np.asarray(rs, dtype=float).reshape(-1, 1), ind)
+                dl = model._estimate_delta(np.asarray(rs, dtype=float).reshape(-1, 1), eps, ind)
+        except Exception as ex:
+            run.diff("_estimate_epsilon / _estimate_delta raised " + type(ex).__name__, input=case, impl=str(ex)[:200], model="no error")
+            continue
+        if driver is None:
+            continue
+        m = driver.run([{"op": "boot.epsilon", "contests": cs, "residuals": [C.rat(r) for r in rs], "k": k}])[0]
+        want = [float(C.unrat(x)) for x in m["epsilon"]] + [float(C.unrat(x)) for x in m["delta"]]
+        got = [float(x) for x in np.asarray(eps, dtype=float).ravel()] + [float(x) for x in np.asarray(dl, dtype=float).ravel()]
+        if len(got) != len(want) or any(not (abs(g - w) <= 1e-9 * max(1.0, abs(w))) for g, w in zip(got, want)):
+            run.diff("contest effects / unit-level rests: implementation vs model", input=case, impl=got, model=want)
+        else:
+            run.traces += 1
+
+
 def explore(run, driver, budget):
     run.info["rule"] = RULE
     bounds_stage(run, driver, {"quick": 60, "thorough": 3000, "search": 400}[budget])
+    epsilon_stage(run, driver, {"quick": 60, "thorough": 2000, "search": 300}[budget])
     if budget == "quick":
         rank_grid(run, driver, list(range(2, 400)) + [500, 999, 1000, 2000], [0.5, 0.75, 0.9375, 0.7, 0.9, 0.95, 0.99, 0.1])
         unit_stage(run, driver, 60)
@@ -415,7 +456,7 @@ def replay(run, driver, payload):
     if c.get("grid") == "ranks":
         rank_grid(run, driver, [c["B"]], [c["alpha"]])
         return
-    if c.get("bounds_stage") or c.get("api_boot") or c.get("clip_stage"):
+    if c.get("bounds_stage") or c.get("api_boot") or c.get("clip_stage") or c.get("epsilon_stage"):
         # the generators are driven by the seed and pass recorded in the replay file (set by main): the same pass is re-run
         explore(run, driver, run.budget)
         return
